@@ -5,6 +5,7 @@
   theorem quantifies over all programs.  IMPORT-FREE, executable.
 -/
 import Rbql.Model.Val
+import Rbql.Model.Number
 namespace Rbql
 
 /-! ### the user's output writer (with an optional refusal point, for the broken-pipe clauses) -/
@@ -142,22 +143,10 @@ structure AggCol where
   stats : List (List Val × Acc) := []      -- per key, in first-seen order
   deriving Repr
 
-/-- numeric strings of the grammar `-?d+(.d+)?` (what the generator produces; Python's `int`/`float` accept more) -/
-def parseDigits (s : Str) : Option Nat :=
-  if s = [] then none else s.foldl (fun acc c => match acc with
-    | some n => if '0' ≤ c ∧ c ≤ '9' then some (n * 10 + (c.toNat - '0'.toNat)) else none
-    | none => none) (some 0)
-
-def parseNumStr (s : Str) : Option Rat :=
-  let (neg, body) := match s with | '-' :: r => (true, r) | _ => (false, s)
-  let (ip, rest) := (body.takeWhile (· != '.'), body.dropWhile (· != '.'))
-  let q : Option Rat := match rest with
-    | [] => (parseDigits ip).map (fun n => (n : Rat))
-    | _ :: fp =>
-      match parseDigits ip, parseDigits fp with
-      | some a, some b => some ((a : Rat) + (b : Rat) / ((10 ^ fp.length : Nat) : Rat))
-      | _, _ => none
-  q.map (fun x => if neg then -x else x)
+/-- numeric strings as `NumHandler.parse` reads them (Model/Number.lean: Python's `int()` grammar, then `float()`'s); over the rationals the
+handler's integer mode does not matter (`C03_int_literal_is_float_literal`). `inf` / `nan` are accepted by Python but have no rational
+value: the engine model refuses them and the generators of the engine-level checks never produce them (the number-level tie does). -/
+def parseNumStr (s : Str) : Option Rat := (numHandlerParseStr true s).1.value
 
 /-- `NumHandler.parse` (int-then-float fallback collapses over the rationals) -/
 def numParse (isStr : Option Bool) (v : Val) : Except ErrKind (Rat × Option Bool) :=
